@@ -124,6 +124,19 @@ def bounded(tier, seed):
         else:
             col.add(None if all(np.array_equal(firsts[0][k], firsts[1][k]) for k in firsts[0]) else
                     {"sig": "native::initial::rebuild", "what": "a second build() of the same builder starts from different values", "input": {"multiple_chains": multiple}})
+    # 6. re-execution in fresh interpreter processes (string hashing is randomised per process)
+    import os, subprocess, sys
+    digests = []
+    for hs in ("1", "2", "3"):
+        env = dict(os.environ, PYTHONHASHSEED=hs, JAX_PLATFORMS="cpu")
+        p_ = subprocess.run([sys.executable, "-m", "rtc.c10_hashseed_probe", str(s)], capture_output=True, text=True, env=env, cwd=os.path.dirname(os.path.dirname(os.path.abspath(__file__))), timeout=300)
+        d = [l.split()[1] for l in p_.stdout.splitlines() if l.startswith("DIGEST")]
+        digests.append(d[0] if d else f"failed: {p_.stderr[-200:]}")
+    if any(x.startswith("failed") for x in digests):
+        col.add({"sig": "native::repro::process_probe_failed", "what": str(digests), "input": {"seed": s}})
+    else:
+        col.add(None if len(set(digests)) == 1 else {"sig": "native::repro::across_processes", "what": "identical seed/model/kernels/schedule/jitter functions give different first samples in different "
+                                                     f"interpreter processes (PYTHONHASHSEED 1,2,3): {len(set(digests))} distinct results", "input": {"seed": s, "jitter_keys": ["gamma", "alpha", "delta", "beta"]}})
     return {
         "evaluations": col.evals, "distinct_nontrivial": col.evals,
         "rule": ("BOUNDED: real EngineBuilder/Engine, 3 chains, two RW kernels on a Gaussian dict model, schedule INIT/FAST(4)/BURNIN(2)/POST(6, thinning 2): rerun equality, int seed vs "
